@@ -47,11 +47,91 @@ def decorate(beh, rng, bid):
            'steps': []}
     for st in beh[1:]:
         a = dict(st['last'])
+        a.pop('cls', None)
         if a['a'] == 'Append':
             a['recs'] = [{'ep': r['ep'], 'ts': r['ts'], 'val': r['val'], 'sz': r['sz'], 'key': r['key'],
                           'vc': 'short', 'hc': rng.choice(HCS), 'exp': r['exp']} for r in a['recs']]
         out['steps'].append(a)
     return out
+
+
+def features(beh):
+    """abstract features of a TLC behaviour for coverage-guided selection: the situation every clean
+    finds (classes computed by the specification itself: MC_Cleaner!CleanClass, carried in `last`)
+    and what happens between snapshot and swap"""
+    feats = set()
+    steps = [st['last'] for st in beh[1:]]
+    for i, a in enumerate(steps):
+        if a['a'] not in ('Clean', 'CleanBegin'):
+            continue
+        c = a['cls']
+        av, lim = ''.join(c['av']), tuple(c['lim'])
+        cnt = tuple(c['cnt'])
+        # compaction pattern, cut at the segment boundaries
+        kv, pos, parts = ''.join(c['kv']), 0, []
+        if kv:
+            for n in cnt:
+                parts.append(kv[pos:pos + n])
+                pos += n
+        kvs = '|'.join(parts)
+        feats.add(('age', av, c['d1'], lim))                 # ordering class of the write times x limits
+        feats.add(('drop', c['n'], c['d1'], c['d'], lim))    # which limit bites how far
+        feats.add(('cnt', cnt[-4:], c['d'], lim[1:]))        # layout of message counts
+        feats.add(('empty-active', c['e'], c['n'] > 1, c['d']))
+        if kvs:
+            feats.add(('kv', kvs))
+            feats.add(('kv-drop', kvs[-8:], c['d']))
+        if a['a'] == 'CleanBegin':
+            win = []
+            for b in steps[i + 1:]:
+                if b['a'] == 'CleanEnd':
+                    break
+                win.append(b['a'] + (str(len(b['recs'])) if b['a'] == 'Append' else ''))
+            feats.add(('win', tuple(win[:3]), av[:3], c['d'], c['n']))
+        nxt = steps[i + 1]['a'] if i + 1 < len(steps) else '-'
+        feats.add(('then', a['a'], nxt, c['d'] > 0))
+    return feats
+
+
+def select(sims, n, rng):
+    """greedy (lazy) selection of at most n behaviours covering as many distinct features as possible;
+    the rest is filled up at random.  Returns (chosen, features covered, features in the pool)."""
+    import heapq
+    pool = [(b, features(b)) for b in sims if len(b) > 1]
+    allf = set()
+    for _, f in pool:
+        allf |= f
+    heap = [(-len(f), i) for i, (_, f) in enumerate(pool)]
+    heapq.heapify(heap)
+    chosen, covered, used = [], set(), set()
+    while heap and len(chosen) < n:
+        g, i = heapq.heappop(heap)
+        gain = len(pool[i][1] - covered)
+        if gain == 0:
+            break
+        if heap and gain < -heap[0][0]:
+            heapq.heappush(heap, (-gain, i))      # stale bound: re-insert with the true gain
+            continue
+        chosen.append(pool[i][0])
+        used.add(i)
+        covered |= pool[i][1]
+    rest = [i for i in range(len(pool)) if i not in used]
+    rng.shuffle(rest)
+    for i in rest[:max(0, n - len(chosen))]:
+        chosen.append(pool[i][0])
+        covered |= pool[i][1]
+    return chosen, len(covered), len(allf)
+
+
+# simulation families: (config for quick, config for thorough, share of the behaviours replayed, pool factor)
+FAMILIES = {
+    'C08': [('Sim_Cleaner_C08.cfg', 'Sim_Cleaner_C08_thorough.cfg', 0.8, 4),
+            # no retention limits, so persistent readers are kept across the compactions
+            ('Sim_Cleaner_C08_readers.cfg', 'Sim_Cleaner_C08_readers.cfg', 0.2, 2)],
+    'C09': [('Sim_Cleaner_C09.cfg', 'Sim_Cleaner_C09_thorough.cfg', 0.55, 5),
+            # many small segments, several lags: every ordering class of last-write times around the age cut-off
+            ('Sim_Cleaner_C09_age.cfg', 'Sim_Cleaner_C09_age.cfg', 0.45, 6)],
+}
 
 
 def shape(b):
@@ -120,7 +200,7 @@ def judge(rep, prop, behaviours, trace, names, timeout=1700):
     return res
 
 
-def run_check(rep, tier, seed, replay, prop, names, nontrivial, rule, quick_num=450, thorough_num=4000):
+def run_check(rep, tier, seed, replay, prop, names, nontrivial, rule, quick_num=500, thorough_num=4000):
     """the pipeline shared by C08 and C09: design check -> simulate -> execute -> TLC judges -> evidence"""
     import random
     import time
@@ -164,12 +244,25 @@ def run_check(rep, tier, seed, replay, prop, names, nontrivial, rule, quick_num=
     # 2. behaviours from the specification
     num = quick_num if quick else thorough_num
     depth = 16 if quick else 20
-    sims = core.tlc_simulate('MC_Cleaner.tla', 'Sim_Cleaner_%s%s.cfg' % (prop, '' if quick else '_thorough'),
-                             num, depth, seed, timeout=2400)
-    if prop == 'C08':
-        # a second family: no retention limits, so persistent readers are kept across the compactions
-        sims += core.tlc_simulate('MC_Cleaner.tla', 'Sim_Cleaner_C08_readers.cfg', num // 5, depth, seed + 1, timeout=1200)
-    behaviours = [decorate(b, rng, i + 1) for i, b in enumerate(sims) if len(b) > 1]
+    # pools of TLC simulations per family; coverage-guided selection of what is replayed (features =
+    # the classes of situations the cleans find, computed by the specification: MC_Cleaner!CleanClass)
+    chosen, fam_cov = [], []
+    for k, (qcfg, tcfg, share, factor) in enumerate(FAMILIES[prop]):
+        want = int(num * share)
+        sims = core.tlc_simulate('MC_Cleaner.tla', qcfg if quick else tcfg, want * factor, depth, seed + k, timeout=2400)
+        sel, cov, inpool = select(sims, want, rng)
+        chosen += sel
+        fam_cov.append({'config': qcfg if quick else tcfg, 'pool': len(sims), 'replayed': len(sel),
+                        'features_covered': cov, 'features_in_pool': inpool})
+    rep.cov['simulation_families'] = fam_cov
+    behaviours = [decorate(b, rng, i + 1) for i, b in enumerate(chosen) if len(b) > 1]
+    classes = set()
+    for b in chosen:
+        for st in b[1:]:
+            if st['last']['a'] in ('Clean', 'CleanBegin'):
+                classes.add((''.join(st['last']['cls']['av']), tuple(st['last']['cls']['lim'])))
+    rep.cov['age_ordering_classes_replayed'] = len({c for c in classes if c[0]})
+    rep.cov['age_classes_with_old_segment_behind_young'] = len({c for c in classes if 'YO' in c[0] or 'EO' in c[0]})
     lap('simulation (%d behaviours)' % len(behaviours))
     # 3. execute on the real code, 4. judge with TLC
     with core.scratch(sub) as d:
